@@ -383,7 +383,7 @@ func markupStreams(thorough bool) []stream {
 	return out
 }
 
-var chainTags = []string{"blockquote", "ul>li", "h1", "h6", "pre", "code", "a", "div", "foo", "bq+ul", "ul>li>blockquote"}
+var chainTags = []string{"blockquote", "ul>li", "h1", "h6", "pre", "code", "a", "div", "foo", "bq+ul", "ul>li>blockquote", "h4>div", "h6>blockquote", "pre>div", "code>pre"}
 var chainInner = []string{"two words", "<hr>", `<img src="https://l.example/i" alt="a b">`, "<pre>x  y</pre>"}
 
 func chainDoc(tag string, depth int, inner string) string {
@@ -403,6 +403,10 @@ func chainDoc(tag string, depth int, inner string) string {
 			}
 		case "ul>li>blockquote":
 			o, c = "<ul><li><blockquote>", "</blockquote></li></ul>"
+		case "h4>div", "h6>blockquote", "pre>div", "code>pre":
+			// headers, pre and code only nest through an intermediate element
+			parts := strings.Split(tag, ">")
+			o, c = "<"+parts[0]+"><"+parts[1]+">", "</"+parts[1]+"></"+parts[0]+">"
 		}
 		open += o
 		close = c + close
@@ -452,7 +456,7 @@ func chainStreams(thorough bool) []stream {
 func main() {
 	r := ev.New("C06", "exploration",
 		"(1) JSON shapes: 21 baseline documents (actor, 7 post types, 4 activities, 4 collection kinds, 5 link kinds) with every field replaced by each of 30 values (absent, null, booleans, numbers incl. negative/fractional/2^53+1/2^63/2^64/1e300, strings, arrays, objects, self-nesting, 40-deep array), "+
-			"all single deviations, and all pairs of fields over 8 values on one baseline per kind (quick) / over 30 values on every baseline (thorough); (2) markup forests (HTML <=2 nodes over 33 labels, <=3/4 nodes over 14 labels; gemtext/Markdown/plaintext line sequences); (3) nesting chains of 11 element families x inner content, "+
+			"all single deviations, and all pairs of fields over 8 values on one baseline per kind (quick) / over 30 values on every baseline (thorough); (2) markup forests (HTML <=2 nodes over 33 labels, <=3/4 nodes over 14 labels; gemtext/Markdown/plaintext line sequences); (3) nesting chains of 15 element families x inner content, "+
 			"depths in increasing order up to 120 while the document stays < 4 kB; every case built through pub.New and followed by String/Preview at widths {-5,-1,0,1,2,3,4,5,8,9,80,200}, Name, Timestamp, Parents(0..3), Children().Harvest(0..3,0..2), SelectLink(min,-1,0,1,2,3,max), Media/ProfilePic/Banner/Creators/Recipients/Actor/Target; "+
 			"distinct_nontrivial = cases whose document differs from its baseline")
 	w := world.New() // every fetch is answered with 404
